@@ -687,4 +687,22 @@ SumFn(f, S) == IF S = {} THEN 0 ELSE LET x == CHOOSE y \in S : TRUE IN f[x] + Su
 SumOver(S, F(_)) == SumFn([x \in S |-> F(x)], S)
 TotalBal(s, d) == SumOver(Accts, LAMBDA x : s.bal[x][d])
 AllTotal(bids, payDenom) == Sum(MapSeq(bids, LAMBDA b : ToSelling(b, payDenom)))
+
+(* keeper/invariants.go: the three invariants the module registers (comparisons with >=, over spendable balances).   *)
+(* The names of the broken ones, in registration order.  They are weaker than C01 (which demands equality up to     *)
+(* donations); the design-level check is ModuleInvariantsHold in every reachable state, the conformance check is    *)
+(* that the real functions answer the same on the real state (monitor field "modinv").                              *)
+ModuleInvariantsBroken(s) ==
+  LET n == Len(s.auctions)
+      sellBad == \E i \in 1..n : LET a == s.auctions[i] IN
+                   a.status = "Started" /\ s.bal[SellAcc(a.id)][a.sellDenom] < a.sellAmt
+      payBad  == \E i \in 1..n : LET a == s.auctions[i] IN
+                   s.bal[PayAcc(a.id)][a.payDenom]
+                     < (IF a.status = "Started" THEN Sum(MapSeq(s.bids[i], LAMBDA b : Reserve(b, a.payDenom))) ELSE 0)
+      vestBad == \E i \in 1..n : LET a == s.auctions[i] IN
+                   s.bal[VestAcc(a.id)][a.payDenom]
+                     < (IF a.status = "Vesting" THEN Sum(MapSeq(s.vqs[i], LAMBDA q : IF q.released THEN 0 ELSE q.amt)) ELSE 0)
+  IN (IF sellBad THEN <<"selling-pool-reserve-amount">> ELSE <<>>)
+     \o (IF payBad THEN <<"paying-pool-reserve-amount">> ELSE <<>>)
+     \o (IF vestBad THEN <<"vesting-pool-reserve-amount">> ELSE <<>>)
 =============================================================================
